@@ -28,7 +28,7 @@ Which limb-level function each integer-level theorem specifies, and what is PROV
 | `Ring.DivFloorByLastModulus` | `Scaling.divFloor` | `divFloor_crt` | **proved**: `divFloor_limbs` (every limb = ⌊x/q_ℓ⌋ mod q_i, from `MRed_spec`, `MForm_spec`, Fermat) |
 | `Ring.DivRoundByLastModulus` | `Scaling.divRound` | `divRound_crt`, `round_half_up` | **proved**: `divRound_limbs` (before repair C02-1 of /repo the function also rewrote p0; now it does not, probe `div_input_unchanged`) |
 | `Ring.Div{Floor,Round}ByLastModulusMany` | `Scaling.divFloorMany/divRoundMany` | `divFloorMany_int`, `divRoundMany_int` | **proved**: `divFloorMany_limbs`, `divRoundMany_limbs` + `roundSeq_eq` |
-| the four `…NTT` variants | `Scaling.div*NTT` | same | **proved** (§1b): `divFloorNTT_limbs`, `divRoundNTT_limbs` (ring degree `N ≥ 16`), `divFloorManyNTT_limbs`, `divRoundManyNTT_limbs`: rows of the result = bit-exact forward NTT of the residues of the quotient (from C01's `inttStd_nttStd`, a no-wrap theorem for `NTTLazy` of ring `q_i` on residues modulo the LARGER `q_ℓ` (`nttCoreLazy_big`), linearity of the exact network).  **FINDING**: `N ≥ 16` is forced — for `N = 8` `DivFloorByLastModulusNTT` is off by one (`divFloorNTT_small_ring_counterexample`, reproduced on /repo) |
+| the four `…NTT` variants | `Scaling.div*NTT` | same | **proved** (§1b): `divFloorNTT_limbs`, `divRoundNTT_limbs` (ring degree `N ≥ 16`), `divFloorManyNTT_limbs`, `divRoundManyNTT_limbs`: rows of the result = bit-exact forward NTT of the residues of the quotient (from C01's `inttStd_nttStd`, a no-wrap theorem for `NTTLazy` of ring `q_i` on residues modulo the LARGER `q_ℓ` (`nttCoreLazy_big`), linearity of the exact network).  **FINDING (repaired, C02-4)**: for `N = 8` and on the conjugate-invariant ring `DivFloorByLastModulusNTT`/`DivRoundByLastModulusNTT` were off by one (lazy `INTTLazy` of the last row); the code and the twin now use `INTT` (`divFloorNTT_small_ring_repaired`); `N ≥ 16` stays a hypothesis of the proof technique only |
 | `ModUpExact` | `BasisExt.modUpExact` (`genModUpConstants`, `reconstruct`, `multSum`) | `hps_sum`, `modUp_exact`, `modUp_off_by_one_*` | **proved** (§2b) up to the NAMED IEEE hypothesis: `modUpExact_limbs` (every limb `≡ Σ y_i·(Q/q_i) − v·Q (mod p_j)` with the code's own `y_i = hpsY` and index `v = fidx`, and `< (k+2)·p_j`, `k = ⌈Σ q_i/2^64⌉`: `< 3p_j` for ≤ 8 moduli below `2^61`: `modUpExact_limbs_3p`), `modUpExact_exact` (`v` exact ⇒ limb `≡ x`; `v` off by one ⇒ `≡ x ∓ Q`).  The Montgomery bookkeeping (`qoverqiinvqi`, `qoverqimodp`, `vtimesqmodp`, 128-bit accumulation, lazy reduction, uint64 wrap) is fully proved; what remains a hypothesis is only the value of the float index: `v ≤ #moduli` (validity of the table lookup) and `v = ⌊Σ y_i/q_i⌋` (exactness; `modUp_centered_exact` gives the rational condition) |
 | `BasisExtender.ModUpQtoP/PtoQ` | `BasisExt.modUp` | `modUp_centered_exact` | **proved** (§2b), same named hypothesis: `modUp_limbs` (limb `≡ centred [x]_Q + (hpsV − v)·Q`, `< (k+2)·p`) |
 | `BasisExtender.ModDownQPtoQ/QPtoP` | `BasisExt.modDownQPtoQ/QPtoP` | `modDown_floor/round/err` | **proved** (§2b), same named hypothesis: `modDownQPtoQ_limbs`, `modDownQPtoP_limbs` (limb `< q_i` and `≡ ⌊(x + ⌊P/2⌋)/P⌋ − δ`, `δ = hpsV − v`, through `modDown_err`) |
@@ -154,7 +154,7 @@ example : divFloor [97, 193, 257] 2 [[1234567 % 97], [1234567 % 193], [1234567 %
 forward NTT (`NTT.nttStd`, tables `Valid`) of the residues `X mod q_i`, then row `i < level` of the result is, limb for
 limb, the forward NTT of `⌊x / q_level⌋ mod q_i`.  Uses `inttStd_nttStd`, the no-wrap theorem `nttCoreLazy_big`
 for `NTTLazy` of ring `q_i` on residues modulo the larger `q_level`, linearity of the exact network, and the
-coefficient-domain limb theorem.  `4 ≤ K` is forced: `divFloorNTT_small_ring_counterexample`. -/
+coefficient-domain limb theorem.  `4 ≤ K` comes from `nttCoreLazy_big` (not forced by the code any more: `divFloorNTT_small_ring_repaired`). -/
 theorem divFloorNTT_limbs (T : Tabs) (qs : List Nat) (level K : Nat) (hC : Chain qs) (hK : 4 ≤ K)
     (hl : level < qs.length)
     (hT : ∀ i, i ≤ level → NTT.Valid (tab T i) K ∧ (tab T i).q = modulus qs i)
@@ -213,13 +213,15 @@ theorem divFloorNTT_coeffs (T : Tabs) (qs : List Nat) (level K : Nat) (hC : Chai
       = X.map fun x => (x / modulus qs level) % modulus qs i :=
   Scaling.divFloorNTT_coeffs T qs level K hC hK hl hT p0 X hX hrows i hi
 
-/-- **`N ≥ 16` is forced (FINDING, reproduced on /repo).**  For `N = 8` — the smallest degree `ring.NewRing`
-accepts — `INTTStandardLazy` (ring/ntt.go:197-206) multiplies by `N⁻¹` with `MRedLazy` (range `[1, 2q]`, in particular
-`0 ↦ q_ℓ`), for `N ≥ 16` with `mulscalarmontgomeryvec` = `MRed` (reduced).  `DivFloorByLastModulusNTT`
-(ring/scaling.go:14) moves that lazy value to the other moduli: on the ZERO polynomial it returns `−1 mod q_i` in
-every coefficient (⌊x/q_ℓ⌋ − 1 whenever the lazy value is `≥ q_ℓ`).  All other hypotheses of `divFloorNTT_limbs`
-hold for this input. -/
-theorem divFloorNTT_small_ring_counterexample :
+/-- **The small ring (`N = 8`) after repair C02-4 of /repo.**  FINDING (reproduced, repaired): `DivFloorByLastModulusNTT`
+and `DivRoundByLastModulusNTT` took the last row through `INTTLazy`, which is really lazy (`MRedLazy`, range
+`[1, 2q]`, `0 ↦ q_ℓ`) for `N < 16` and, on the conjugate-invariant ring, for EVERY `N`; that value was moved to the
+other moduli as an integer, giving `⌊x/q_ℓ⌋ − 1` (the zero polynomial ↦ `−1` in every coefficient).  The code now
+uses the reducing `INTT`; the twin follows, and on the former witness the result is the zero polynomial.
+`4 ≤ K` (`N ≥ 16`) is therefore no longer forced by the code; it stays a hypothesis of `divFloorNTT_limbs` /
+`divRoundNTT_limbs` because the no-wrap theorem `nttCoreLazy_big` is proved for the unrolled schedule only
+(gap: `N = 8` and the conjugate-invariant ring are covered by the ties `div`/`divci` and the reference probes). -/
+theorem divFloorNTT_small_ring_repaired :
     let T8 := mkTabs 8 [97, 193] [5, 5]
     let qs := [97, 193]
     let X := List.replicate 8 0
@@ -228,10 +230,19 @@ theorem divFloorNTT_small_ring_counterexample :
     ∧ (∀ i, i ≤ 1 → NTT.Valid (tab T8 i) 3 ∧ (tab T8 i).q = modulus qs i)
     ∧ X.length = 2 ^ 3
     ∧ (∀ i, i ≤ 1 → row p0 i = NTT.nttStd (tab T8 i) (X.map (· % modulus qs i)))
-    ∧ (divFloorNTT T8 qs 1 p0).map (NTT.inttStd (tab T8 0)) = [List.replicate 8 96]
-    ∧ divFloorNTT T8 qs 1 p0 ≠ (List.range 1).map fun i =>
+    ∧ (divFloorNTT T8 qs 1 p0).map (NTT.inttStd (tab T8 0)) = [List.replicate 8 0]
+    ∧ divFloorNTT T8 qs 1 p0 = (List.range 1).map fun i =>
         NTT.nttStd (tab T8 i) (X.map fun x => (x / modulus qs 1) % modulus qs i) :=
-  Scaling.divFloorNTT_small_ring_counterexample
+  Scaling.divFloorNTT_small_ring_repaired
+
+/-- The ring-type-generic twins (used for the conjugate-invariant ties `divci`, `moddownnttci`, `decompnttci`)
+ARE the standard-ring functions when instantiated with the standard transforms. -/
+theorem ring_generic_twins_std :
+    divFloorNTTX xfStd = divFloorNTT ∧ divRoundNTTX xfStd = divRoundNTT
+    ∧ divFloorManyNTTX xfStd = divFloorManyNTT ∧ divRoundManyNTTX xfStd = divRoundManyNTT
+    ∧ BasisExt.modDownQPtoQNTTX xfStd = BasisExt.modDownQPtoQNTT
+    ∧ Decomp.decomposeNTTX xfStd = Decomp.decomposeNTT :=
+  ⟨rfl, rfl, rfl, rfl, rfl, rfl⟩
 
 -- test (non-vacuity): N = 16, qs = [97, 193], level 1, 16 coefficients 1000·j + 7
 example : divFloorNTT exT16 [97, 193] 1 exP0 = [NTT.nttStd (tab exT16 0) (exX.map fun x => (x / 193) % 97)] :=
@@ -786,7 +797,8 @@ end Lattigo.Props.C02
 #print axioms Lattigo.Props.C02.divFloorManyNTT_limbs
 #print axioms Lattigo.Props.C02.divRoundManyNTT_limbs
 #print axioms Lattigo.Props.C02.divFloorNTT_coeffs
-#print axioms Lattigo.Props.C02.divFloorNTT_small_ring_counterexample
+#print axioms Lattigo.Props.C02.divFloorNTT_small_ring_repaired
+#print axioms Lattigo.Props.C02.ring_generic_twins_std
 #print axioms Lattigo.Props.C02.multSum_limb
 #print axioms Lattigo.Props.C02.reconstruct_limb
 #print axioms Lattigo.Props.C02.modUpExact_limbs
